@@ -31,6 +31,7 @@ META = {
     "not_decided": "the error constants themselves (n*eps*max|v|, eps*max|v|/alpha, n*eps*kappa), overflow, and the "
                    "explainer-level bound: no sound static argument for them is in reach with the installed tooling",
 }
+META["explanation"] += ' Also DEP-C03 KEY (credits tracked as differenced) and the process-wide NumPy error mode.'
 MIN_INSTANCES = {"CENTRED": 2, "PLAIN": 4, "NOCAST": 1, "DENOM": 2, "CHAIN": 1}
 NARROW = {"numpy.float32", "numpy.float16", "numpy.half", "numpy.single", "numpy.csingle", "numpy.complex64",
           "torch.float16", "torch.bfloat16"}
